@@ -479,8 +479,15 @@ BRIDGE = {
     },
     "Rough.Bridge.ServerLoop": {
         "rs_modules": ["Server", "Responder", "Request", "Online", "Message", "Merkle"],
-        "theorems": ["collect_requests_sim", "service_socket_sim", "send_responses_exact"],
+        "theorems": ["collect_requests_sim", "service_socket_sim", "service_socket_full", "send_responses_exact"],
+        # of server.rs only the datagram path belongs to this bridge (the event loop has its own: ProcessEvents)
+        "rs_functions": {"Server": ["Server::collect_requests", "Server::service_socket", "struct Server"]},
         "props": ["C07", "C08", "C09", "C17", "C18", "C19"],
+    },
+    "Rough.Bridge.ProcessEvents": {
+        "rs_modules": ["Server", "Responder", "Request", "Online", "Message", "Merkle", "StatsCore"],
+        "theorems": ["process_events_sim", "handle_health_check_total", "handle_health_check_no_listener", "send_client_stats_eq"],
+        "props": ["C08", "C09", "C15", "C17", "C18", "C19"],
     },
     "Rough.Bridge.Stats": {
         "rs_modules": ["StatsCore", "StatsAgg", "StatsPer"],
@@ -525,6 +532,7 @@ _BRIDGE_WHAT = {
     "Rough.Bridge.Reporter": "stats/reporter.rs receive_client_stats (drains the queue of published snapshots, oldest first, and merges every entry = the model's reporterReceive)",
     "Rough.Bridge.Grease": "grease.rs (new, should_add_error, add_errors, randomly_order_tags, corrupt_response_signature; the random generator is a tape of draws)",
     "Rough.Bridge.Tables": "tag.rs / version.rs (wire values, from_wire, is_nested, names, signing contexts, supported-versions list: the tables the other generated modules use through externs)",
+    "Rough.Bridge.ProcessEvents": "server.rs process_events / handle_health_check / send_client_stats (poll tokens, the three event arms, the backlog flag and the post-loop service, the accept loop, publication of the recorder's entries) refine the model EventLoop.processEvents the LOOP_* theorems are about",
     "Rough.Bridge.SendResponses": "responder.rs send_responses (the whole batch loop incl. failing sends, fault injection, lazily evaluated debug! arguments, statistics events)",
 }
 for _pid, _cfg in PROPS.items():
